@@ -144,6 +144,23 @@ def search(ctx):
     first = a.get_result(500.)
     if digest(first.N, first.t) != digest(again.N, again.t):
         V.append({"key": {"clause": "repeat_basic"}, "what": "repeating basic_simulation with equal inputs gives different numbers", "input": {"op": "repeat_basic"}})
+    # repetition with every optional argument in play: DR width given, CNI, then the plain run again (equal inputs, equal numbers —
+    # whatever was simulated in between in this process)
+    skw = {"rtol": 1e-6, "dense_output": True}
+    plain0 = a.get_result(3000.)
+    seq = []
+    for label, kw2 in (("dr", dict(dr_fwhm=15.)), ("dr", dict(dr_fwhm=15.)), ("cni", dict(dr_fwhm=None, CNI=True)), ("cni", dict(dr_fwhm=None, CNI=True)),
+                       ("dr+cni", dict(dr_fwhm=15., CNI=True)), ("dr", dict(dr_fwhm=15.)), ("plain", dict(dr_fwhm=None))):
+        r_ = ebisim.basic_simulation(element="Ar", j=80., e_kin=3000., t_max=0.02, solver_kwargs=dict(skw), **kw2)
+        seq.append((label, digest(r_.N, r_.t))); ctx.evaluations += 1
+    by = {}
+    for label, h in seq:
+        by.setdefault(label, set()).add(h)
+    for label, hs_ in by.items():
+        if len(hs_) != 1:
+            V.append({"key": {"clause": "repeat_basic", "variant": label}, "what": f"repeating basic_simulation(Ar, 3000 eV, {label}) with equal inputs in one process gives different numbers", "input": {"op": "repeat_basic_options", "variant": label}})
+    if by.get("plain") and digest(plain0.N, plain0.t) not in by["plain"]:
+        V.append({"key": {"clause": "repeat_basic", "variant": "plain-after-options"}, "what": "a plain basic_simulation repeated after runs with a DR width / CNI gives different numbers than before them", "input": {"op": "repeat_basic_options", "variant": "plain"}})
     ctx.cov["thread_counts"] = threads
     # energy scan: process pool vs sequential, energies given out of order
     kw = dict(element="Ar", j=80., t_max=0.02, dr_fwhm=None, solver_kwargs={"rtol": 1e-6})
